@@ -53,7 +53,7 @@ CRATE_FINDERS = {
     "lock": ("src/core/server.rs", "units/lock/finder_test.rs"),
 }
 # further finders of a unit (integration tests driving the binary)
-EXTRA_FINDERS = {"log": [("tests/", "units/log/finder_show_test.rs")]}
+EXTRA_FINDERS = {"log": [("tests/", "units/log/finder_show_test.rs")], "config": [("tests/", "units/config/finder_generate_test.rs")]}
 CACHE = os.path.join(U.VERIF, ".cache")
 
 
